@@ -12,7 +12,10 @@ def front(g):
     Note:
     If the Pauli string is identity, i = N-1 will be returned, although there
     is no nontrivial qubit.'''
-    return torch.div(torch.argmax(g, dim=-1), 2, rounding_mode='floor')
+    nontrivial = g.ne(0)
+    i = torch.div(torch.argmax(nontrivial.to(torch.int64), dim=-1), 2, rounding_mode='floor')
+    # identity string: no nontrivial qubit, return N-1 (the documented convention)
+    return torch.where(nontrivial.any(dim=-1), i, torch.full_like(i, g.shape[-1]//2 - 1))
 
 
 def condense(g):
